@@ -2,7 +2,8 @@
 """Regenerates MANIFEST.json from harness/checks.json, not_applicable.json and properties.jsonl."""
 import json, os
 V = '/verif'
-checks = json.load(open(f'{V}/harness/checks.json'))
+import glob
+checks = {os.path.basename(f)[:-5]: json.load(open(f)) for f in glob.glob(f'{V}/harness/checks/*.json')}
 na = json.load(open(f'{V}/not_applicable.json'))
 props = [json.loads(l) for l in open(f'{V}/properties.jsonl')]
 ids = [p['id'] for p in props]
